@@ -2,6 +2,7 @@ import Juniper.Proofs.BatchClose
 import Juniper.Proofs.BatchWaiter
 import Juniper.Proofs.BatchSize
 import Juniper.Proofs.BatchBg
+import Juniper.Proofs.BatchProgress
 import Juniper.Model.Skeleton
 import Juniper.Generated.Skeleton
 /-!
@@ -237,47 +238,103 @@ example : ∃ s, Reach code (Cfg.ofBatch 10 3) s ∧
     [.nextCall true, .announce, .srcRet (.item 7), .prodSend, .fullRet false, .tick 10, .timerExpire, .recvTimer,
      .deliver] rfl, by decide⟩
 
-/-- **…and then it is handed to a waiting consumer rather than held back.** A consumer that has
-announced itself (it is in the inner `select`) while the batch is non-empty always has the timer
-running for this batch; once `maxWait` has elapsed on the batcher's clock a step towards the hand-over
-is enabled (the timer expires or its arm is taken), and from `flush` the hand-over to this very
-consumer is enabled and makes its `Next` return the batch. -/
-theorem batch_handed_to_waiter {cfg : Cfg} {s : State} (h : Reach code cfg s)
-    (hw : s.cons = .inner) (hne : s.batch ≠ []) :
-    code.BgTied ∧
-    (s.bpc = .sel → s.timer ≠ .idle ∧ s.timerCSet = true) ∧
-    (s.bpc = .sel → s.batchStart + cfg.maxWait ≤ s.now →
-      (step code cfg s .timerExpire).isSome = true ∨ (step code cfg s .recvTimer).isSome = true) ∧
-    (∀ r, s.bpc = .flush r → ∃ s', step code cfg s .deliver = some s' ∧
-      s'.results = s.results ++ [.batch s.batch] ∧ s'.cons = .idle) := by
+/-- **…and then it is handed to a waiting consumer rather than held back.** For a consumer that has
+announced itself (it is in the inner `select` of `Next`) while the batch is non-empty:
+
+(0) regenerated facts beyond the arm tables: nothing but `Close` ends the background work
+    (`Code.BgTied`); `stopTimer`, which runs on the way to the hand-over, drains `timerC` only under
+    `!stopped && timerC != nil` (then a value is there: it does not block — runtime semantics, trusted).
+(1) **the waiter is never forgotten** (safety): at the loop's `select` the timer is running for this
+    batch, its channel is the one the `select` listens on, and its deadline is `batchStart + maxWait`
+    or has already passed; inside `full` for the batch's first item the batcher remembers the waiter
+    (`waitingAtEmpty`: it arms the timer right after the call), inside `full` for a later item the
+    timer is running; in `flush` the hand-over to this very consumer is enabled and *serves* it
+    (`Served`: its `Next` returns exactly this batch, logged as a hand-over to an announced waiter).
+(2) **once `maxWait` has elapsed** (`Overdue`: `batchStart + maxWait ≤ now` on the batcher's clock,
+    `batchStart` being this batch's):
+    (a) *stability*: whatever happens next — any label, environment included — the state is `Overdue`
+        again, or the consumer has been served with this batch, or it has left on its own expired
+        context (`Served`);
+    (b) *rank*: every step of a goroutine or of the runtime other than the hand-off `prodSend`
+        serves the consumer or strictly decreases `waitRank` (≤ 9);
+    (c) no step at all raises `waitRank` by more than `waitCost`: 3 for `prodSend` (each needs a
+        fresh item from the source), 2 for the source's end / failure (once), 0 otherwise;
+    (d) *enabledness*: a step as in (b) is enabled (the hand-over, the timer arm, the expiry of the
+        timer — its deadline has passed —, or the return of `full`: `hfull`).
+    So, unless the consumer leaves, it is served after at most `9 + 3·#prodSend + 2` further steps of
+    the goroutines. What is **not** proved and is the fairness assumption (`checks/C11.json`): that
+    Go's `select` in the batcher's loop does not take its `<-c` arm for ever while the timer arm is
+    ready and the producer keeps offering items (`prodSend`, then `fullRet false`, is a cycle of
+    constant rank), and that enabled steps are eventually taken (scheduler).
+For `bpc = exit / done` see `batch_waiter_sees_end`. -/
+theorem batch_handed_to_waiter {cfg : Cfg} (hfull : ∀ b, ∃ r, cfg.fullOK b r = true) {s : State}
+    (h : Reach code cfg s) (hw : s.cons = .inner) (hne : s.batch ≠ []) :
+    (code.BgTied ∧ Gen.Batch.stopTimerDrainCond = "!stopped && timerC != nil" ∧
+      Gen.Batch.stopTimerDrainChan = "timerC") ∧
+    ((s.bpc = .sel → s.timer ≠ .idle ∧ s.timerCSet = true ∧
+        ∀ t, s.timer = .armed t → t = s.batchStart + cfg.maxWait ∨ (s.batchStart + cfg.maxWait ≤ t ∧ t ≤ s.now)) ∧
+      (s.bpc = .inFull → s.batch.length = 1 → s.waitingAtEmpty = true) ∧
+      (s.bpc = .inFull → 2 ≤ s.batch.length → s.timer ≠ .idle ∧ s.timerCSet = true) ∧
+      (∀ r, s.bpc = .flush r → ∃ s', step code cfg s .deliver = some s' ∧ Served s s')) ∧
+    (Overdue cfg s →
+      (∀ l s', step code cfg s l = some s' → Overdue cfg s' ∨ Served s s') ∧
+      (∀ l s', l.internal = true → l ≠ .prodSend → step code cfg s l = some s' →
+        Served s s' ∨ waitRank s' < waitRank s) ∧
+      (∀ l s', step code cfg s l = some s' → Served s s' ∨ waitRank s' ≤ waitRank s + waitCost l) ∧
+      (∃ l, l.internal = true ∧ l ≠ .prodSend ∧ (step code cfg s l).isSome = true) ∧
+      waitRank s ≤ 9) := by
   have h1 := inv1_reach (reach_good h)
+  have h3 := inv3_reach (reach_good h)
   have h4 := inv4_reach (reach_good h)
   have hpos : 0 < s.batch.length := List.length_pos_iff.2 hne
-  refine ⟨by decide, ?_⟩
+  refine ⟨⟨by decide, by decide, by decide⟩, ?_⟩
   rw [code_is_good]
-  refine ⟨?_, ?_, ?_⟩
+  refine ⟨⟨?_, ?_, ?_, ?_⟩, ?_⟩
   · intro hb
     have ht := h4.j1 hw hb hpos
-    exact ⟨ht, h1.t_set (Or.inl hb) ht⟩
-  · intro hb hel
-    have ht := h4.j1 hw hb hpos
-    have hset := h1.t_set (Or.inl hb) ht
-    cases htm : s.timer with
-    | idle => exact absurd htm ht
-    | fired => right; simp [step, hb, htm, hset, good]
-    | armed t =>
-      left
-      have := h1.t_armed (Or.inl hb) t htm
-      have hle : t ≤ s.now := by omega
-      simp [step, htm, hle]
+    exact ⟨ht, h1.t_set (Or.inl hb) ht, h1.t_armed (Or.inl hb)⟩
+  · intro hb hl; exact h4.j3 hw hb hl
+  · intro hb hl
+    have ht := h4.j4 hw hb hl
+    exact ⟨ht, h1.t_set (Or.inr hb) ht⟩
   · intro r hb
-    cases r <;> simp [step, hb, hw, good, afterFull, Gen.Batch.firstItemCond]
+    cases r <;> simp [step, hb, hw, good, afterFull, Gen.Batch.firstItemCond, Served]
+  · intro hO
+    exact ⟨fun l s' hs => waiter_stable h1 h3 hO hs, fun l s' hl hp hs => waiter_rank h1 h3 hO hl hp hs,
+      fun l s' hs => waiter_cost h1 h3 hO hs, waiter_enabled h1 h3 h4 (hfull _) hO, waitRank_le s⟩
 
-example : ∃ s, Reach code (Cfg.ofFunc 10) s ∧ s.cons = .inner ∧ s.batch = [7, 8] ∧ s.bpc = .sel ∧
-    s.batchStart + 10 ≤ s.now ∧ s.timer = .armed 10 :=
+/-- an overdue waiter at the loop's `select` with the timer still to expire … -/
+example : ∃ s, Reach code (Cfg.ofFunc 10) s ∧ Overdue (Cfg.ofFunc 10) s ∧ s.batch = [7, 8] ∧ s.bpc = .sel ∧
+    s.timer = .armed 10 ∧ waitRank s = 3 :=
   ⟨_, reach_of_run Reach.init
     [.srcRet (.item 7), .prodSend, .fullRet false, .tick 4, .nextCall true, .announce, .srcRet (.item 8),
-     .prodSend, .fullRet false, .tick 6] rfl, by decide⟩
+     .prodSend, .fullRet false, .tick 6] rfl, by decide, by decide, by decide, by decide, by decide⟩
+
+/-- … and one while the batcher is inside `full` for a second item (the state the earlier version of
+this theorem was silent about); from here `fullRet false, timerExpire, recvTimer, deliver` serves it -/
+example : ∃ s s', Reach code (Cfg.ofFunc 10) s ∧ Overdue (Cfg.ofFunc 10) s ∧ s.bpc = .inFull ∧ waitRank s = 6 ∧
+    run code (Cfg.ofFunc 10) s [.fullRet false, .timerExpire, .recvTimer, .deliver] = some s' ∧
+    s'.results = [.batch [7, 8]] ∧ s'.delivered.map (·.toWaiter) = [true] :=
+  ⟨_, _, reach_of_run Reach.init [.srcRet (.item 7), .prodSend, .fullRet false, .nextCall true, .announce,
+     .srcRet (.item 8), .prodSend, .tick 100] rfl, by decide, by decide, by decide, rfl, by decide, by decide⟩
+
+/-- **A waiting consumer learns that the stream is over.** Once the batcher has left its loop (`exit`:
+its deferred `timer.Stop(); close(out.batchC)` is the enabled step; `done`: `batchC` is closed) a
+pending `Next`, whether in the outer or in the inner `select`, has its closed-channel arm enabled, and
+taking it makes the call return `End`, or the source's error if the source had failed. (The other half
+of "not held back": what the waiter gets when there will be no further batch. Enabledness of the one
+step; that it is taken is scheduler fairness.) -/
+theorem batch_waiter_sees_end {cfg : Cfg} {s : State} (h : Reach code cfg s) (hc : s.cons ≠ .idle) :
+    (s.bpc = .exit → (step code cfg s .batchExit).isSome = true) ∧
+    (s.bpc = .done → ∃ s', step code cfg s .consClosed = some s' ∧ s'.cons = .idle ∧
+      (s'.results = s.results ++ [.endOK] ∨ s'.results = s.results ++ [.srcErr])) := by
+  have h0 := inv0_reach (reach_good h)
+  rw [code_is_good]
+  exact waiter_sees_end h0 hc
+
+example : ∃ s, Reach code (Cfg.ofBatch 10 2) s ∧ s.cons = .inner ∧ s.bpc = .done :=
+  ⟨_, reach_of_run Reach.init
+    [.nextCall true, .announce, .srcRet .eof, .prodCloseC, .recvCClosed, .batchExit] rfl, by decide, by decide⟩
 
 /-- **A source error is reported after the items that preceded it** (C08): when `Next` reports the
 source's error, the source did fail and every item it handed out before failing has been returned in
